@@ -10,9 +10,15 @@ program tokens:
 Answer:  model=<result> flags=<stale><scope><arity> spec=<result>
 result: items separated by `,` (`()` for the empty sequence): integers, `D<n>` / `E<n>` for an
 integer-valued decimal / double, `true`/`false`, `F` for a function item; `ERR:<code>` for an error.
+
+Container programs (phase 5, `EPV/Model/Containers.lean`): request line
+  cfg=… fuel=<n> C=<npre> (<x> E)* <0 array|1 map> <nent> (<key> E)* <npost> (<x> E)* <nuses> U*
+  U = get <k> | ucall <k> <n> A1..An | each <x> <k> <n> A1..An | foreach E   (array:for-each($c, E)?* / map:for-each($c, E))
+same answer format (`ERR:FOAY0001`, `ERR:XQDY0137` for the container errors).
 -/
 import EPV.Proto
 import EPV.Model.Closures
+import EPV.Model.Containers
 open EPV.Proto EPV.Clo
 
 def parseBuiltin : String → Option Builtin
@@ -142,6 +148,71 @@ def showRes : Except Err Seq → String
 
 def bit (b : Bool) : String := if b then "1" else "0"
 
+partial def parseBinds : Nat → List String → Option (List (Nat × Expr) × List String)
+  | 0, r => some ([], r)
+  | k + 1, x :: r => do
+    let x ← nat? x; let (e, r) ← parseE r; let (bs, r) ← parseBinds k r; pure ((x, e) :: bs, r)
+  | _, _ => none
+
+partial def parseEntries : Nat → List String → Option (List (Int × Expr) × List String)
+  | 0, r => some ([], r)
+  | k + 1, x :: r => do
+    let x ← int? x; let (e, r) ← parseE r; let (bs, r) ← parseEntries k r; pure ((x, e) :: bs, r)
+  | _, _ => none
+
+partial def parseUses : Nat → List String → Option (List CStep × List String)
+  | 0, r => some ([], r)
+  | n + 1, "get" :: k :: r => do
+    let k ← int? k; let (us, r) ← parseUses n r; pure (.use (.get k) :: us, r)
+  | n + 1, "ucall" :: k :: m :: r => do
+    let k ← int? k; let m ← nat? m; let (as, r) ← parseArgs m r
+    let (us, r) ← parseUses n r; pure (.use (.call k as) :: us, r)
+  | n + 1, "each" :: x :: k :: m :: r => do
+    let x ← nat? x; let k ← int? k; let m ← nat? m; let (as, r) ← parseArgs m r
+    let (us, r) ← parseUses n r; pure (.use (.each x k as) :: us, r)
+  | n + 1, "foreach" :: r => do
+    let (f, r) ← parseE r; let (us, r) ← parseUses n r; pure (.forEach f :: us, r)
+  | _, _ => none
+
+def parseCont : List String → Option (CProg × List String)
+  | npre :: r => do
+    let npre ← nat? npre
+    let (pre, r) ← parseBinds npre r
+    match r with
+    | m :: nent :: r => do
+      let nent ← nat? nent
+      let (ents, r) ← parseEntries nent r
+      match r with
+      | npost :: r => do
+        let npost ← nat? npost
+        let (post, r) ← parseBinds npost r
+        match r with
+        | nu :: r => do
+          let nu ← nat? nu
+          let (us, r) ← parseUses nu r
+          pure ({ pre := pre, isMap := m == "1", entries := ents, post := post, uses := us }, r)
+        | [] => none
+      | [] => none
+    | _ => none
+  | [] => none
+
+def showCRes : Except Err (Except XErr Seq) → String
+  | .error e => "ERR:" ++ e.code
+  | .ok (.error x) => "ERR:" ++ x.code
+  | .ok (.ok s) => showRes (.ok s)
+
+def parseCfg (cfgS : String) : Cfg :=
+  let cs := cfgS.toList
+  { share := cs.getD 0 '0' == '1', leak := cs.getD 1 '0' == '1', lexical := cs.getD 2 '0' == '1' }
+
+def answerCont (cfgS : String) (fuel : Nat) (ctxt : String) : String :=
+  match parseCont (ctxt.trimAscii.toString.splitOn " ") with
+  | some (p, []) =>
+    let o := implContEval (parseCfg cfgS) fuel p
+    let f := o.flags
+    s!"model={showCRes o.result} flags={bit f.stale}{bit f.scope}{bit f.arity} spec={showCRes (specContEval fuel p)}"
+  | _ => "bad-program"
+
 def answer (line : String) : String :=
   let fs := fields line
   let cfgS := field fs "cfg"
@@ -155,6 +226,10 @@ def answer (line : String) : String :=
       let f := o.flags
       s!"model={showRes o.result} flags={bit f.stale}{bit f.scope}{bit f.arity} spec={showRes (specEval fuel p)}"
     | _ => "bad-program"
+  | some fuel, _ =>
+    match line.splitOn " C=" with
+    | [_, ctxt] => answerCont cfgS fuel ctxt
+    | _ => "bad-line"
   | _, _ => "bad-line"
 
 def main : IO Unit := mainLoop answer
